@@ -936,9 +936,20 @@ Proof.
   - rewrite <- (Hn eq_refl). reflexivity.
 Qed.
 
+(* generated fact: SELECT_NEXT_STEP has the four conjuncts (dispatch fragment, threshold, attached, hash or resources) *)
+Lemma sn_where_repo : sn_where = sn_full.
+Proof. reflexivity. Qed.
+Lemma eligible_cached_q_full w g s : eligible_cached_q sn_full w g s = eligible_cached_with w g s.
+Proof.
+  unfold eligible_cached_q, sn_full, eligible_cached_with. cbn [forallb sn_atom_holds].
+  rewrite andb_true_r, !andb_assoc. reflexivity.
+Qed.
+Lemma eligible_cached_unfold g s : eligible_cached g s = eligible_cached_with ru_where g s.
+Proof. unfold eligible_cached. rewrite sn_where_repo. apply eligible_cached_q_full. Qed.
+
 Lemma eligible_cached_is_spec g s : AllCorrect g -> HasHashInv g -> In s (g_steps g) ->
   eligible_cached g s = eligible_spec g s.
-Proof. unfold eligible_cached. rewrite ru_where_repo. apply eligible_cached_with_is_spec. Qed.
+Proof. rewrite eligible_cached_unfold, ru_where_repo. apply eligible_cached_with_is_spec. Qed.
 
 Theorem dispatch_only_eligible_gen g :
   WF g -> Acyclic g -> FlagInv g -> HasHashInv g ->
@@ -1281,6 +1292,36 @@ Lemma update_meta_from_true g : safe_merge = MergeDeepest -> after_first_round =
   update_meta_from true g = update_meta g.
 Proof. intros _ H. unfold update_meta, update_meta_with, update_meta_from, update_meta_after_from, update_meta_after, update_meta_safe. rewrite H. reflexivity. Qed.
 
+(* SELECT_NEXT_STEP with its four conjuncts selects exactly the eligible steps of a correct snapshot ... *)
+Theorem dispatch_set_q_full_is_eligible g s :
+  AllCorrect g -> HasHashInv g -> In s (g_steps g) ->
+  (In s (dispatch_set_q sn_full [RuRunning] g) <-> eligible_spec g s = true).
+Proof.
+  intros HA HH Hin. unfold dispatch_set_q. rewrite filter_In, eligible_cached_q_full.
+  rewrite (eligible_cached_with_is_spec g s HA HH Hin). tauto.
+Qed.
+(* ... and without `NOT node.detached` it hands out a detached step: d (2) was detached when its creator reran
+   and did not define it again; it is PENDING with correct cached values *)
+Definition sn_no_attached : list sn_atom := [SnDispatchWhere; SnAboveThreshold; SnHashOrResources].
+Definition g_sn : graph :=
+  mkGraph [wstep 1 22 34 None true 34 false false false;
+           mkStep 2 21 32 false 0 0 true None true true 32 true false false false false false 1 1 []]
+          [] [mkOnode 0 false None] [] [] [] [] 31.
+Theorem dispatch_without_attached_conjunct_refuted :
+  exists g, WF g /\ Acyclic g /\ AllCorrect g /\ HasHashInv g /\
+    exists s, In s (dispatch_set_q sn_no_attached [RuRunning] g) /\ s_detached s = true /\ eligible_spec g s = false.
+Proof.
+  exists g_sn.
+  split; [apply wf_refl; vm_compute; reflexivity|].
+  split; [split; [exists (fun k => 0%nat); apply creator_rank_refl | exists (fun k => 0%nat); apply need_rank_refl];
+          vm_compute; reflexivity|].
+  split; [apply allcorrect_refl; vm_compute; reflexivity|].
+  split; [apply has_hash_inv_refl; vm_compute; reflexivity|].
+  exists (mkStep 2 21 32 false 0 0 true None true true 32 true false false false false false 1 1 []).
+  split; [unfold dispatch_set_q; apply filter_In; split; [right; left; reflexivity | vm_compute; reflexivity]|].
+  split; vm_compute; reflexivity.
+Qed.
+
 (* For ANY resource query that subtracts the units of exactly the RUNNING steps the dispatch set is the set
    of eligible steps (AllCorrect snapshot) ... *)
 Theorem dispatch_set_with_running_is_eligible g s :
@@ -1367,6 +1408,38 @@ Proof.
     + apply starts_ineligible_refl. destruct pol; vm_compute; reflexivity.
 Qed.
 
+(* The narrowed delete trigger ("the producers keep a consumer, propagation reaches them through that edge"):
+   g_d8 with a second, OPTIONAL and unneeded consumer O (4) of f.  Deleting f -> C leaves P unflagged because O
+   still consumes f; P keeps _implied_need = DEFAULT and is dispatched although nothing needs it. *)
+Definition g_d8s : graph :=
+  mkGraph [wstep 1 22 34 None true 34 false false false;
+           wstep 2 21 31 (Some 1) true 32 false false false;
+           set_ready (wstep 3 22 32 (Some 1) true 32 false false false) false false;
+           set_ready (wstep 4 21 31 (Some 1) true 31 false false false) false false]
+          [mkFile 10 [102] 15 false (Some 2) false] [mkOnode 0 false None]
+          [mkDep 2 10 false; mkDep 10 3 true; mkDep 10 4 false] [] [] [] 31.
+
+Theorem del_dep_unless_shared_refuted :
+  exists g d, WF g /\ Acyclic g /\ AllCorrect g /\ HasHashInv g /\
+    ~ FlagInv_need (del_dep_with trg_dep_del_unless_shared g d) /\
+    forall pol, exists g', update_meta_with pol (del_dep_with trg_dep_del_unless_shared g d) = Some g' /\
+      ~ AllCorrect g' /\ exists s, In s (dispatch_set g') /\ eligible_spec g' s = false.
+Proof.
+  exists g_d8s, d_d8.
+  split; [apply wf_refl; vm_compute; reflexivity|].
+  split; [split; [exists (fun k => N.to_nat (k - 1)); apply creator_rank_refl | exists (fun k => if k =? 2 then 1%nat else 0%nat); apply need_rank_refl]; vm_compute; reflexivity|].
+  split; [apply allcorrect_refl; vm_compute; reflexivity|].
+  split; [apply has_hash_inv_refl; vm_compute; reflexivity|].
+  split.
+  - intros H. apply flaginv_need_refl in H. vm_compute in H. discriminate.
+  - intros pol.
+    exists (the (update_meta_with pol (del_dep_with trg_dep_del_unless_shared g_d8s d_d8)) g_d8s).
+    split; [destruct pol; vm_compute; reflexivity|].
+    split.
+    + intros H. apply allcorrect_refl in H. destruct pol; vm_compute in H; discriminate.
+    + apply starts_ineligible_refl. destruct pol; vm_compute; reflexivity.
+Qed.
+
 (* ------------------------------------------------------------------------------------------ *)
 (* Flag soundness of the primitive mutations                                                  *)
 (* ------------------------------------------------------------------------------------------ *)
@@ -1386,14 +1459,28 @@ Fixpoint trigF (g : graph) (body : list (flagcol * ttarget)) (self : N) (d : opt
   | ct :: r => trigF g r self d (flagF (fst ct) (target_keys g self d (snd ct)) s)
   end.
 
-Lemma target_keys_mapg F g self d t : target_keys (mapg F g) self d t = target_keys g self d t.
-Proof. destruct t; reflexivity. Qed.
-
-Lemma trigF_mapg F g body self d s : trigF (mapg F g) body self d s = trigF g body self d s.
+Lemma node_detached_mapg F g k : keeps F -> node_detached (mapg F g) k = node_detached g k.
 Proof.
-  revert s. induction body as [|ct r IH]; intros s; [reflexivity|].
-  cbn [trigF]. rewrite target_keys_mapg. apply IH.
+  intros K. unfold node_detached. rewrite find_step_mapg by exact K.
+  destruct (find_step g k) as [s|]; [cbn [option_map]; apply (k_detached F K) | reflexivity].
 Qed.
+Lemma target_keys_mapg F g self d t : keeps F -> target_keys (mapg F g) self d t = target_keys g self d t.
+Proof.
+  intros K. destruct t; try reflexivity. cbn [target_keys]. destruct d as [e|]; [|reflexivity].
+  change (g_deps (mapg F g)) with (g_deps g).
+  replace (existsb (fun d' => (d_src d' =? d_src e) && negb (node_detached (mapg F g) (d_snk d'))) (g_deps g))
+    with (existsb (fun d' => (d_src d' =? d_src e) && negb (node_detached g (d_snk d'))) (g_deps g)); [reflexivity|].
+  induction (g_deps g) as [|x l IH]; [reflexivity|]. cbn [existsb]. rewrite IH, (node_detached_mapg F g _ K). reflexivity.
+Qed.
+
+Lemma trigF_mapg F g body self d s : keeps F -> trigF (mapg F g) body self d s = trigF g body self d s.
+Proof.
+  intros K. revert s. induction body as [|ct r IH]; intros s; [reflexivity|].
+  cbn [trigF]. rewrite target_keys_mapg by exact K. apply IH.
+Qed.
+
+Lemma flagF_keeps c ks : keeps (flagF c ks).
+Proof. constructor; intros s; unfold flagF; destruct (mem_N (s_key s) ks); destruct c; reflexivity. Qed.
 
 Lemma mapg_ext F1 F2 g : (forall s, F1 s = F2 s) -> mapg F1 g = mapg F2 g.
 Proof. intros H. unfold mapg. f_equal. apply map_ext. exact H. Qed.
@@ -1403,7 +1490,7 @@ Proof.
   unfold run_trigger. revert g. induction body as [|ct r IH]; intros g.
   - cbn [fold_left trigF]. unfold mapg. destruct g. cbn. rewrite map_id. reflexivity.
   - cbn [fold_left]. rewrite IH. rewrite flag_keys_mapg, mapg_mapg.
-    apply mapg_ext. intros s. rewrite trigF_mapg. reflexivity.
+    apply mapg_ext. intros s. rewrite trigF_mapg by apply flagF_keeps. reflexivity.
 Qed.
 
 (* maps that only raise flags *)
@@ -2507,7 +2594,8 @@ Definition flagcol_eqb (a b : flagcol) : bool :=
 Definition ttarget_eqb (a b : ttarget) : bool :=
   match a, b with
   | TSelf, TSelf | TSource, TSource | TSink, TSink | TConsumersOfSelf, TConsumersOfSelf
-  | TSinkOfDep, TSinkOfDep | TProducersOfSource, TProducersOfSource => true
+  | TSinkOfDep, TSinkOfDep | TProducersOfSource, TProducersOfSource
+  | TProducersOfSourceUnlessShared, TProducersOfSourceUnlessShared => true
   | _, _ => false
   end.
 Definition has_stmt (c : flagcol) (t : ttarget) (l : list (flagcol * ttarget)) : bool :=
